@@ -1450,7 +1450,7 @@ pub fn par_cases(seed: u64, thorough: bool) -> Vec<(String, usize)> {
     for p in repo_pars(if thorough { 2_000_000 } else { 20_000 }) {
         out.push((p, 5));
     }
-    let n = if thorough { 60000 } else { 2000 };
+    let n = if thorough { 60000 } else { 1500 };
     for _ in 0..n {
         out.push((random_par(&mut rng), rng.range(1, 3)));
     }
